@@ -192,7 +192,8 @@ pub fn run(prop: &'static str, thorough: bool, seed: u64) -> Report {
     for idx in 0..n {
         let mut r = rng.fork();
         let case = gen_case(&mut r, &corpus, idx);
-        let dir: PathBuf = std::env::temp_dir().join(format!("verif-cli-{}-{}-{}", std::process::id(), seed, idx));
+        // (a dot in a *directory* name must not leak into the derived sibling name of a dot-less file)
+        let dir: PathBuf = std::env::temp_dir().join(format!("verif-cli-{}-{}-{}{}", std::process::id(), seed, idx, if idx % 2 == 0 { ".d" } else { "" }));
         let _ = std::fs::remove_dir_all(&dir);
         std::fs::create_dir_all(&dir).unwrap();
         let dir = std::fs::canonicalize(&dir).unwrap();
